@@ -406,11 +406,21 @@ def every_header_line_stored(chk, prog, rid, fn, cfg=None):
         if nd[0] == "variant":
             continue        # a header the parser adds itself
         adds.append(blk)
+    # `headers.push(parse_header_line(line)?)`: a whole Header appended
+    adds += [blk for blk, t in b.calls_to(r"http::headers::Headers::push$") if len(t["args"]) == 2]
+    adds += [blk for blk, t in b.calls_to(r"^std::vec::Vec::<T, A>::push$") if t.get("arg_tys") and "headers::Header" in t["arg_tys"][0]]
     reads = [blk for blk, t in b.calls_to(r"(BufRead|AsyncBufReadExt)(<[^>]*>)?>?::(read_line|read_until)$|::read_line$|::read_until$")]
     loop_reads = [r for r in reads if r in b.reachable(b.succs(r))]
     chk.floor(f"header-line reads inside the header loop [{cfg}]", len(loop_reads), 1)
     chk.floor(f"Headers::add of a parsed line [{cfg}]", len(adds), 1)
     for r in loop_reads:
+        same_loop = [a for a in adds if a in b.reachable(b.succs(r)) and r in b.reachable(b.succs(a))]
+        if not same_loop:
+            # the lines are collected first and parsed in a second pass: this rule does not follow the collection, and says so
+            chk.extra.setdefault("not_decided_on_this_tree", []).append(f"every header line stored [{cfg}]: lines are read and parsed in separate loops")
+            chk.ob(rid, fn, "every header line read is stored in the header list before the next one is read", True,
+                   "not decided on this tree: the header lines are read in one loop and added in another", cfg=cfg, where=b.where(r))
+            continue
         again = r in b.reachable(b.succs(r), removed_nodes=set(adds))
         w = None
         if again:
@@ -435,6 +445,8 @@ def request_address_fixed(chk, prog, rid, cfg=None):
         if not (p.startswith("humphrey::") or p.startswith("<humphrey::") or p.startswith("humphrey_server::")) or "promoted" in p:
             continue
         n += 1
+        if core.re.match(r"^<?humphrey::(tokio::)?http::request::", p):
+            continue        # the parser may build the request step by step
         for bi, blk in enumerate(b.blocks):
             if blk.get("cleanup"):
                 continue
